@@ -379,6 +379,12 @@ func (h *Hist) ActCallABI() {
 	h.RefreshPools()
 	data, descr := GenCallData(c, h.Pools, addr, method, layer)
 	from := h.user("call.from")
+	if addr == types.SporkContract && method == definition.SporkActivateMethodName && from == h.W.Keys.Spork.Address {
+		// an activated spork that this process does not implement makes the node call os.Exit at
+		// its enforcement height; activations by the designated key are generated in C17 only,
+		// where the id is bound to an implemented spork first
+		from = h.Users[0]
+	}
 	var z types.ZenonTokenStandard
 	var amt *big.Int
 	switch c.Weighted("call.amt", 3, 3, 1) {
